@@ -31,12 +31,12 @@ type detail struct {
 }
 
 type rig struct {
-	s    *session.Session
-	rd   *os.File
-	rfd  int
-	wr   *os.File
-	m    *term.Model
-	buf  []byte
+	s   *session.Session
+	rd  *os.File
+	rfd int
+	wr  *os.File
+	m   *term.Model
+	buf []byte
 }
 
 func newRig() *rig {
@@ -209,17 +209,30 @@ func modName(m vaxis.ModifierMask) string {
 func keyCases(g *rig) {
 	cursorApp := map[rune]string{vaxis.KeyUp: "\x1bOA", vaxis.KeyDown: "\x1bOB", vaxis.KeyRight: "\x1bOC", vaxis.KeyLeft: "\x1bOD", vaxis.KeyEnd: "\x1bOF", vaxis.KeyHome: "\x1bOH"}
 	cursorNorm := map[rune]string{vaxis.KeyUp: "\x1b[A", vaxis.KeyDown: "\x1b[B", vaxis.KeyRight: "\x1b[C", vaxis.KeyLeft: "\x1b[D", vaxis.KeyEnd: "\x1b[F", vaxis.KeyHome: "\x1b[H"}
-	for _, decckm := range []bool{false, true} {
-		for _, deckpam := range []bool{false, true} {
+	for hm := 0; hm < 8; hm++ {
+		// hist: the modes are set directly, or both were set first and the unwanted one reset again
+		decckm, deckpam, hist := hm&1 != 0, hm&2 != 0, hm&4 != 0
+		{
 			var modes []string
 			mname := fmt.Sprintf("decckm=%v deckpam=%v", decckm, deckpam)
-			if decckm {
-				modes = append(modes, "\x1b[?1h")
-			}
-			if deckpam {
-				modes = append(modes, "\x1b=")
+			if hist {
+				mname += " (both set first, then reset as needed)"
+				modes = append(modes, "\x1b[?1h", "\x1b=")
+				if !decckm {
+					modes = append(modes, "\x1b[?1l")
+				}
+				if !deckpam {
+					modes = append(modes, "\x1b>")
+				}
 			} else {
-				modes = append(modes, "\x1b>")
+				if decckm {
+					modes = append(modes, "\x1b[?1h")
+				}
+				if deckpam {
+					modes = append(modes, "\x1b=")
+				} else {
+					modes = append(modes, "\x1b>")
+				}
 			}
 			g.freshModel(modes)
 			for _, k := range keySet() {
@@ -279,10 +292,14 @@ func keyCases(g *rig) {
 }
 
 func pasteCases(g *rig) {
-	for _, on := range []bool{false, true} {
+	for pi := 0; pi < 3; pi++ {
+		on := pi == 1
 		var modes []string
 		if on {
 			modes = []string{"\x1b[?2004h"}
+		}
+		if pi == 2 {
+			modes = []string{"\x1b[?2004h", "\x1b[?2004l"} // switched on and off again
 		}
 		g.freshModel(modes)
 		for i, ev := range []vaxis.Event{vaxis.PasteStartEvent{}, vaxis.PasteEndEvent{}} {
@@ -324,7 +341,10 @@ func mouseCases(g *rig) {
 		vaxis.MouseWheelUp, vaxis.MouseWheelDown, vaxis.MouseButton8, vaxis.MouseButton9, vaxis.MouseButton10, vaxis.MouseButton11}
 	types := []vaxis.EventType{vaxis.EventPress, vaxis.EventRelease, vaxis.EventMotion}
 	tname := map[vaxis.EventType]string{vaxis.EventPress: "press", vaxis.EventRelease: "release", vaxis.EventMotion: "motion"}
-	for mask := 0; mask < 64; mask++ {
+	// hist: how the child arrived at the mode combination - 0: by setting what it wants; 1: by setting all four
+	// mouse modes and resetting the others again; 2: the same, set in the opposite order
+	for mh := 0; mh < 64*3; mh++ {
+		mask, hist := mh%64, mh/64
 		m1000, m1002, m1003, m1006, alt, smcup := mask&1 != 0, mask&2 != 0, mask&4 != 0, mask&8 != 0, mask&16 != 0, mask&32 != 0
 		var modes []string
 		if smcup {
@@ -335,15 +355,35 @@ func mouseCases(g *rig) {
 		} else {
 			modes = append(modes, "\x1b[?1007l")
 		}
-		for _, p := range []struct {
+		want := []struct {
 			on bool
 			n  int
-		}{{m1000, 1000}, {m1002, 1002}, {m1003, 1003}, {m1006, 1006}} {
-			if p.on {
+		}{{m1000, 1000}, {m1002, 1002}, {m1003, 1003}, {m1006, 1006}}
+		switch hist {
+		case 0:
+			for _, p := range want {
+				if p.on {
+					modes = append(modes, fmt.Sprintf("\x1b[?%dh", p.n))
+				}
+			}
+		default:
+			for i := range want {
+				p := want[i]
+				if hist == 2 {
+					p = want[len(want)-1-i]
+				}
 				modes = append(modes, fmt.Sprintf("\x1b[?%dh", p.n))
+			}
+			for _, p := range want {
+				if !p.on {
+					modes = append(modes, fmt.Sprintf("\x1b[?%dl", p.n))
+				}
 			}
 		}
 		mname := fmt.Sprintf("1000=%v 1002=%v 1003=%v 1006=%v altscroll=%v altscreen=%v", m1000, m1002, m1003, m1006, alt, smcup)
+		if hist > 0 {
+			mname += fmt.Sprintf(" (all four set, the others reset again; history %d)", hist)
+		}
 		g.freshModel(modes)
 		for _, btn := range buttons {
 			for _, ty := range types {
@@ -360,7 +400,11 @@ func mouseCases(g *rig) {
 						r.Count("mouse_cases", 1)
 						what := fmt.Sprintf("mouse button=%d %s at col %d row %d", btn, tname[ty], col, row)
 						bad := func(clause, why string) {
-							r.Violation(fmt.Sprintf("C13|mouse|%s|%s|1000=%v,1002=%v,1003=%v,1006=%v", clause, tname[ty], m1000, m1002, m1003, m1006),
+							after := ""
+							if hist > 0 {
+								after = "|after-reset"
+							}
+							r.Violation(fmt.Sprintf("C13|mouse|%s|%s|1000=%v,1002=%v,1003=%v,1006=%v%s", clause, tname[ty], m1000, m1002, m1003, m1006, after),
 								mask*10000+int(btn)*10+row*3+col, detail{What: what, Modes: mname, Bytes: fmt.Sprintf("%q", b), Why: why})
 						}
 						wheel := btn == vaxis.MouseWheelUp || btn == vaxis.MouseWheelDown
@@ -440,7 +484,7 @@ func main() {
 	n := r.Get("key_cases") + r.Get("paste_cases") + r.Get("mouse_cases")
 	r.Finish(explore.Coverage{
 		States: -1, Transitions: n, Traces: n, Evaluations: n,
-		Rule:       "keys {a-z, 0-9, 11 punctuation, 8 non-ASCII letters, arrows, Home, End, Ins, Del, PgUp, PgDn, F1-F12, Enter, Tab, Esc, Backspace, Space} x every subset of Shift/Alt/Ctrl that the xterm legacy encoding expresses unambiguously x decckm x deckpam; paste start/end x bracketed-paste mode; mouse buttons {left, middle, right, none, wheel up/down, 8-11} x press/release/motion x 3x3 positions x all 2^6 combinations of modes 1000/1002/1003/1006, alt-scroll and alternate screen; bytes written to the pipe standing in for the PTY are re-parsed by a real Vaxis on a fake console; distinct = cases that passed",
+		Rule:       "keys {a-z, 0-9, 11 punctuation, 8 non-ASCII letters, arrows, Home, End, Ins, Del, PgUp, PgDn, F1-F12, Enter, Tab, Esc, Backspace, Space} x every subset of Shift/Alt/Ctrl that the xterm legacy encoding expresses unambiguously x decckm x deckpam (each set directly, or both set and the unwanted one reset again); paste start/end x bracketed-paste mode (off, on, on and off again); mouse buttons {left, middle, right, none, wheel up/down, 8-11} x press/release/motion x 3x3 positions x all 2^6 combinations of modes 1000/1002/1003/1006, alt-scroll and alternate screen, each reached in three ways (set only; all four set in either order and the others reset again); bytes written to the pipe standing in for the PTY are re-parsed by a real Vaxis on a fake console; distinct = cases that passed",
 		Exhaustive: true,
 		Assumptions: []string{"chords the legacy encoding cannot express (Ctrl+Shift+letter, Alt+Shift+letter, Alt+Ctrl+letter, Ctrl+h/i/j/m, modified Enter/Tab/Esc/Backspace/Space other than Shift+Tab, Shift/Ctrl+digit or punctuation) are outside the table",
 			"wheel to arrow-key translation under alt-scroll in the alternate screen is the widget's documented feature, not a mouse report",
